@@ -28,7 +28,9 @@ def showReqs {P : Type} (o : Ops P) (showP : P → String) (rs : Option (List (R
   match rs with
   | Option.none => ["obs diverge"]
   | some rs =>
-    s!"obs n {rs.length}" :: (rs.zipIdx.map (fun (r, i) => s!"obs req {i} cs={r.cached} sz={o.size r.p} | {showP r.p}"))
+    s!"obs n {rs.length}" :: (rs.zipIdx.map (fun (r, i) => s!"obs req {i} cs={r.cached} sz={o.size r.p} | {showP r.p}")) ++
+      -- `res = append(res, req)`: the receiver is mutated and returned as the LAST result (the batcher reads it back)
+      ["obs last_is_receiver 1"]
 
 def parseSizer (s : String) : Option Sizer :=
   if s = "items" then some ⟨false⟩ else if s = "bytes" then some ⟨true⟩ else Option.none
@@ -47,6 +49,8 @@ def checkLogs (sig : String) (sz : Sizer) (max : Int) (src : List Res) (outs : L
     [ if permB a b then "prop conserve=ok"
       else if permB (ids a) (ids b) then s!"prop conserve=FAIL sig=C04/mergesplit/item-context-changed/{sig}-{szName sz}"
       else s!"prop conserve=FAIL sig=C04/mergesplit/items-lost-or-duplicated/{sig}-{szName sz}",
+      -- FIFO: the results, concatenated, list the items in arrival order, receiver first (what `Consume` relies on)
+      if ids a == ids b then "prop fifo=ok" else s!"prop fifo=FAIL sig=C04/mergesplit/not-fifo/{sig}-{szName sz}",
       -- items that weigh nothing in the configured unit (a profile without samples under the items sizer) do not count
       match (outs.zip ps).find? (fun (o, p) => max != 0 && o.sz > max && ((flatten p).filter (fun c => itemSize sz c.2.2 > 0)).length > 1) with
       | some (o, p) => s!"prop bound=FAIL sig=C04/mergesplit/batch-exceeds-max/{sig}-{szName sz} size={o.sz} max={max} items={(flatten p).length}"
@@ -94,6 +98,7 @@ def checkMetrics (sz : Sizer) (max : Int) (src : List MRes) (outs : List OutReq)
           s!"prop conserve=FAIL sig=C04/mergesplit/metric-identity-lost/anonymous-split-off-fragment"
         else s!"prop conserve=FAIL sig=C04/mergesplit/point-context-changed/metrics-{szName sz}"
       else s!"prop conserve=FAIL sig=C04/mergesplit/points-lost-or-duplicated/metrics-{szName sz}",
+      if ids a == ids b then "prop fifo=ok" else s!"prop fifo=FAIL sig=C04/mergesplit/not-fifo/metrics-{szName sz}",
       match over.find? (fun x => !explained x), over.head? with
       | some (o, p), _ => s!"prop bound=FAIL sig=C04/mergesplit/batch-exceeds-max/metrics-{szName sz} size={o.sz} max={max} items={(mflatten p).length}"
       | Option.none, some (o, p) =>
